@@ -339,3 +339,8 @@ def rules(ctx):
     from . import common_backend as _B
     _B.polar_pair(ctx, "C01.polar", ("backends/fockbackend/circuit.py", "compilers/gaussian_unitary.py", "ops.py"))
     ctx.floor("C01.polar", 1)
+    # a preparation is 'the same physics' on every simulator only if it forgets the previous state of its target everywhere,
+    # and a photon-number measurement only if every simulator pairs each mode with its own outcome (shared with C05 / C06)
+    _B.prep_reset(ctx, "C01.prep-reset")
+    from . import c06 as _c06
+    _c06.fock_outcome(ctx, "C01.fock-outcome")
